@@ -9,8 +9,8 @@ theorem retry_nstart {cfg : Cfg} {s s' : State} {nid t : Nat} {e : Bool} {v : Na
   unfold stepNstart at hs
   split at hs
   · simp at hs
-  · dsimp only at hs
-    split at hs <;> simp at hs <;> subst hs <;> retry_close True.intro
+  · try dsimp only at hs
+    split at hs <;> simp at hs <;> subst hs <;> retry_close0
 
 set_option maxHeartbeats 4000000 in
 theorem retry_nrun {cfg : Cfg} {s s' : State} {nid : Nat} (h : Retry cfg s) (hs : stepNrun s nid = some s') :
@@ -19,13 +19,13 @@ theorem retry_nrun {cfg : Cfg} {s s' : State} {nid : Nat} (h : Retry cfg s) (hs 
   split at hs
   · simp at hs
   · split at hs
-    · simp at hs; subst hs; retry_close True.intro
+    · simp at hs; subst hs; retry_close0
     · split at hs
       · simp at hs
-      · split at hs <;> simp at hs <;> subst hs <;> retry_close True.intro
+      · split at hs <;> simp at hs <;> subst hs <;> retry_close0
     · split at hs
       · simp at hs
-      · split at hs <;> simp at hs <;> subst hs <;> retry_close True.intro
+      · split at hs <;> simp at hs <;> subst hs <;> retry_close0
     · simp at hs
 
 set_option maxHeartbeats 4000000 in
@@ -37,11 +37,21 @@ theorem retry_nwrite {cfg : Cfg} {s s' : State} {nid : Nat} {o : Outcome} (h : R
   · split at hs
     · split at hs
       · simp at hs
-      · simp at hs; subst hs; retry_close True.intro
+      · simp at hs; subst hs; retry_close0
     · simp at hs
 
-theorem retry_ack {cfg : Cfg} {s : State} {ids : List Nat} (h : Retry cfg s) : Retry cfg (stepAck s ids) := by
-  constructor <;> simp [stepAck, Call.outcome] <;> grind [Retry, Call.outcome]
+theorem retry_ackOne {cfg : Cfg} (s : State) (id : Nat) (h : Retry cfg s) : Retry cfg (ackOne cfg s id).1 := by
+  unfold ackOne
+  split
+  · split
+    · split
+      · constructor <;> simp [Call.outcome] <;> grind [Retry, Call.outcome]
+      · split <;> (constructor <;> simp [setCall, removeAck, Call.outcome] <;> grind [Retry, Call.outcome])
+    · exact h
+  · exact h
+
+theorem retry_ack {cfg : Cfg} {s : State} {ids : List Nat} (h : Retry cfg s) : Retry cfg (stepAck cfg s ids) :=
+  stepAck_induct cfg retry_ackOne ids s h
 
 theorem retry_cancel {cfg : Cfg} {s s' : State} {i : Nat} (h : Retry cfg s) (hs : stepCancel s i = some s') :
     Retry cfg s' := by
@@ -49,14 +59,14 @@ theorem retry_cancel {cfg : Cfg} {s s' : State} {i : Nat} (h : Retry cfg s) (hs 
   split at hs
   · simp at hs
   · split at hs <;> simp at hs <;> subst hs
-    · retry_close True.intro
+    · retry_close0
     · exact h
 
 set_option maxHeartbeats 4000000 in
 theorem retry_advance {cfg : Cfg} {s : State} {d : Nat} (h : Retry cfg s) : Retry cfg (stepAdvance s d) := by
   constructor <;> simp [stepAdvance, Call.tickTimer, Call.outcome] <;> grind [Retry, Call.outcome]
 
-theorem retry_step {cfg : Cfg} {s s' : State} {a : Action} (hg : cfg.guard = true) (hm : 1 ≤ cfg.maxRetries)
+theorem retry_step {cfg : Cfg} {s s' : State} {a : Action} (hg : cfg.std = true) (hm : 1 ≤ cfg.maxRetries)
     (h : Retry cfg s) (hs : step cfg s a = some s') : Retry cfg s' := by
   cases a <;> simp only [step] at hs
   · exact retry_start hm h hs
@@ -64,17 +74,18 @@ theorem retry_step {cfg : Cfg} {s s' : State} {a : Action} (hg : cfg.guard = tru
   · exact retry_loop hg hm h hs
   · exact retry_wait hg hm h hs
   · exact retry_dret hg hm h hs
-  · exact retry_gpass hm h hs
+  · exact retry_gpass hg hm h hs
   · exact retry_nstart h hs
   · exact retry_nrun h hs
   · exact retry_nwrite h hs
   · cases hs; exact retry_ack h
   · exact retry_cancel h hs
   · cases hs; exact retry_advance h
-  · cases hs; constructor <;> simp <;> grind [Retry]
-  · cases hs; constructor <;> simp <;> grind [Retry]
+  · split at hs <;> simp at hs; subst hs; constructor <;> simp <;> grind [Retry]
+  · split at hs <;> simp at hs; subst hs; constructor <;> simp <;> grind [Retry]
+  · split at hs <;> simp at hs; subst hs; constructor <;> simp <;> grind [Retry]
 
-theorem retry_run {cfg : Cfg} (hg : cfg.guard = true) (hm : 1 ≤ cfg.maxRetries) {as : List Action} {s s' : State}
+theorem retry_run {cfg : Cfg} (hg : cfg.std = true) (hm : 1 ≤ cfg.maxRetries) {as : List Action} {s s' : State}
     (h : Retry cfg s) (hs : run cfg s as = some s') : Retry cfg s' := by
   induction as generalizing s with
   | nil => simp [run] at hs; subst hs; exact h
@@ -84,7 +95,7 @@ theorem retry_run {cfg : Cfg} (hg : cfg.guard = true) (hm : 1 ≤ cfg.maxRetries
     · next s1 h1 => exact ih (retry_step hg hm h h1) hs
     · simp at hs
 
-theorem reachable_retry {cfg : Cfg} (hg : cfg.guard = true) (hm : 1 ≤ cfg.maxRetries) {s : State}
+theorem reachable_retry {cfg : Cfg} (hg : cfg.std = true) (hm : 1 ≤ cfg.maxRetries) {s : State}
     (h : Reachable cfg s) : Retry cfg s := by
   obtain ⟨as, hs⟩ := h
   exact retry_run hg hm (retry_init cfg) hs
